@@ -1226,7 +1226,7 @@ while_stmt:
 for_stmt:
 	FOR exprlist IN testlist ':' suite optional_else
 	{
-		target := tupleOrExpr($<pos>$, $2, false)
+		target := tupleOrExpr($<pos>$, $2, $<comma>2)
 		setCtx(yylex, target, ast.Store)
 		$$ = &ast.For{StmtBase: ast.StmtBase{Pos: $<pos>$}, Target: target, Iter: $4, Body: $6, Orelse: $7}
 	}
